@@ -1213,6 +1213,313 @@ def reuse_history(case, tmpdir):
     return out
 
 
+# =====================================================================================================================
+# 9. the environment is an input, the clock is not: SOURCE_DATE_EPOCH x a FAKED clock.  The property says the output
+# does not depend on the clock, so the check may set the clock as it likes: every render of this section runs under a
+# frozen clock chosen by the harness (datetime.now / utcnow / today, time.time / time_ns replaced in every loaded
+# module), two renders of one input run under two different clocks.  Every date of the PDF is read back.
+
+_HEAD_DIFF = 2082844800      # seconds from 1904-01-01 (head table) to 1970-01-01
+
+
+class _FakeClock:
+    """with _FakeClock(t) as clock: every Python-level read of the system clock gives t (seconds since 1970, UTC);
+    clock.readers = the modules that read it."""
+
+    def __init__(self, t):
+        self.t = t
+        self.readers = []
+
+    def _who(self):
+        try:
+            return sys._getframe(2).f_globals.get('__name__', '?')
+        except Exception:
+            return '?'
+
+    def __enter__(self):
+        import datetime as dt
+        import time as tm
+        clock = self
+        real_dt = self.real_dt = dt.datetime
+        self.real_time, self.real_ns = tm.time, tm.time_ns
+
+        class Meta(type):
+            def __instancecheck__(cls, obj):
+                return isinstance(obj, real_dt)
+
+        class FakeDatetime(real_dt, metaclass=Meta):
+            @classmethod
+            def now(cls, tz=None):
+                clock.readers.append(clock._who())
+                return real_dt.fromtimestamp(clock.t, tz)
+
+            @classmethod
+            def utcnow(cls):
+                clock.readers.append(clock._who())
+                return real_dt.fromtimestamp(clock.t, dt.timezone.utc).replace(tzinfo=None)
+
+            @classmethod
+            def today(cls):
+                clock.readers.append(clock._who())
+                return real_dt.fromtimestamp(clock.t)
+
+        def fake_time():
+            clock.readers.append(clock._who())
+            return float(clock.t)
+
+        def fake_time_ns():
+            clock.readers.append(clock._who())
+            return int(clock.t) * 10 ** 9
+        self.fakes = {id(real_dt): FakeDatetime, id(self.real_time): fake_time, id(self.real_ns): fake_time_ns}
+        self.reals = {id(FakeDatetime): real_dt, id(fake_time): self.real_time, id(fake_time_ns): self.real_ns}
+        self._swap(self.fakes)
+        return self
+
+    @staticmethod
+    def _swap(table):
+        for mod in list(sys.modules.values()):
+            d = getattr(mod, '__dict__', None)
+            if not isinstance(d, dict):
+                continue
+            for k, v in list(d.items()):
+                new = table.get(id(v))
+                if new is not None and isinstance(k, str):
+                    try:
+                        d[k] = new
+                    except Exception:
+                        pass
+
+    def __exit__(self, *exc):
+        self._swap(self.reals)      # also in the modules imported while the clock was faked
+        return False
+
+
+def _head_modified(data):
+    """head.modified (64 bits, seconds since 1904) of an sfnt font program, read from the bytes: fontTools' reader drops
+    the upper 32 bits."""
+    import struct
+    if len(data) < 12 or data[:4] not in (b'OTTO', b'\x00\x01\x00\x00', b'true'):
+        return None
+    ntables = struct.unpack('>H', data[4:6])[0]
+    for i in range(ntables):
+        rec = data[12 + 16 * i:28 + 16 * i]
+        if len(rec) == 16 and rec[:4] == b'head':
+            offset = struct.unpack('>I', rec[8:12])[0]
+            if len(data) >= offset + 36:
+                return struct.unpack('>q', data[offset + 28:offset + 36])[0]
+    return None
+
+
+_FONT_FILE_DATES = []
+
+
+def font_file_dates():
+    """head.modified / head.created (seconds since 1970) of every font file the documents can use: the fonts fontconfig
+    lists and the fonts of tests/resources.  These dates are inputs."""
+    if _FONT_FILE_DATES:
+        return _FONT_FILE_DATES[0]
+    from fontTools.ttLib import TTFont
+    repo = os.environ.get('VERIF_REPO', '/repo')
+    res = os.path.join(repo, 'tests', 'resources')
+    paths = [os.path.join(res, f) for f in sorted(os.listdir(res)) if f.lower().endswith(('.otf', '.ttf', '.woff', '.woff2', '.ttc'))]
+    try:
+        out = subprocess.run(['fc-list', ':', 'file'], stdout=subprocess.PIPE, stderr=subprocess.DEVNULL, timeout=30).stdout.decode()
+        paths += sorted({l.split(':')[0].strip() for l in out.splitlines() if l.strip()})
+    except Exception:
+        pass
+    dates = set()
+    for p in paths:
+        for index in range(8):
+            try:
+                f = TTFont(p, fontNumber=index, lazy=True)
+                dates.add(int(f['head'].modified) - _HEAD_DIFF)
+                dates.add(int(f['head'].created) - _HEAD_DIFF)
+                f.close()
+            except Exception:
+                break
+            if not p.lower().endswith('.ttc'):
+                break
+    _FONT_FILE_DATES.append(sorted(dates))
+    return _FONT_FILE_DATES[0]
+
+
+def pdf_dates(pdf):
+    """Every date written into the PDF: the (CreationDate, ModDate) of the Info dictionary and of every XMP packet, of the
+    /Params of every /EmbeddedFile (with its /CheckSum), head.modified of every font program, and every other string of
+    any object that looks like a PDF date."""
+    import pdfread
+    doc = pdfread.parse(pdf)
+    out = {'info': None, 'xmp': [], 'files': [], 'fonts': [], 'others': [], 'problems': list(doc.problems)[:3]}
+    info_ref = doc.trailer.get('Info')
+    info_num = getattr(info_ref, 'num', None)
+    info = doc.info
+    if info is not None:
+        out['info'] = [info[k].text() if isinstance(info.get(k), pdfread.PDFString) else None for k in ('CreationDate', 'ModDate')]
+    seen_params = set()
+
+    def strings(v, path, acc, depth=0):
+        if depth > 12:
+            return
+        if isinstance(v, pdfread.PDFString):
+            t = v.text()
+            if re.match(r'^D:\d{4}', t):
+                acc.append((path, t))
+        elif isinstance(v, dict):
+            for k, x in v.items():
+                strings(x, path + '/' + str(k), acc, depth + 1)
+        elif isinstance(v, (list, tuple)):
+            for x in v:
+                strings(x, path + '[]', acc, depth + 1)
+    for num, obj in sorted(doc.objects.items()):
+        dic = obj.dict if isinstance(obj, pdfread.StreamObj) else obj if isinstance(obj, dict) else None
+        if dic is None:
+            continue
+        typ, sub = str(dic.get('Type', '')), str(dic.get('Subtype', ''))
+        if typ == 'EmbeddedFile':
+            params = doc.resolve(dic.get('Params')) or {}
+            seen_params.add(id(params))
+            cs = params.get('CheckSum')
+            data = doc.stream_data(obj)
+            out['files'].append({'md5': hashlib.md5(data).hexdigest() if data is not None else None,
+                                 'checksum': bytes(cs).hex() if isinstance(cs, pdfread.PDFString) else None,
+                                 'created': params['CreationDate'].text() if isinstance(params.get('CreationDate'), pdfread.PDFString) else None,
+                                 'modified': params['ModDate'].text() if isinstance(params.get('ModDate'), pdfread.PDFString) else None})
+            continue
+        if typ == 'Metadata' and sub == 'XML':
+            data = doc.stream_data(obj) or b''
+            c = re.search(rb'<[\w:]*CreateDate[^>]*>([^<]*)<', data)
+            m = re.search(rb'<[\w:]*ModifyDate[^>]*>([^<]*)<', data)
+            out['xmp'].append([c.group(1).decode('utf-8', 'replace') if c else None, m.group(1).decode('utf-8', 'replace') if m else None])
+            for x in re.findall(rb'<[\w:]*[Dd]ate[\w:]*[^>]*>([^<]*)<', data):      # MetadataDate and the like
+                t = x.decode('utf-8', 'replace')
+                if t not in out['xmp'][-1]:
+                    out['others'].append(['xmp', t])
+            continue
+        if isinstance(obj, pdfread.StreamObj) and (any(k in dic for k in ('Length1', 'Length2', 'Length3')) or
+                                                   sub in ('OpenType', 'Type1C', 'CIDFontType0C')):
+            stamp = _head_modified(doc.stream_data(obj) or b'')      # a bare CFF program has no head table
+            if stamp is not None:
+                out['fonts'].append(stamp - _HEAD_DIFF)
+            continue
+        acc = []
+        strings(dic, 'obj%d' % num if num != info_num else 'Info', acc)
+        for path, t in acc:
+            if path in ('Info/CreationDate', 'Info/ModDate'):
+                continue
+            out['others'].append([path, t])
+    return out
+
+
+def _build_attachment(spec, opened):
+    """spec: dict(kind, path|url|text, created, modified) -> what the caller puts into options['attachments']."""
+    import datetime as dt
+    import pathlib
+    from weasyprint import Attachment
+    k = spec['kind']
+    if k == 'raw-str':
+        return spec['path']
+    if k == 'raw-pathlib':
+        return pathlib.Path(spec['path'])
+    if k == 'raw-url':
+        return spec['url']
+    if k == 'raw-fileobj':
+        f = open(spec['path'], 'rb')
+        opened.append(f)
+        return f
+    kw = {}
+    for name in ('created', 'modified'):
+        if spec.get(name) is not None:
+            d = dt.datetime.fromtimestamp(spec[name], dt.timezone.utc)
+            kw[name] = d if spec.get('aware') else d.replace(tzinfo=None)
+    if spec.get('name'):
+        kw['name'] = spec['name']
+    if spec.get('description'):
+        kw['description'] = spec['description']
+    if k == 'obj-guess':
+        return Attachment(spec['path'], **kw)
+    if k == 'obj-filename':
+        return Attachment(filename=spec['path'], **kw)
+    if k == 'obj-url':
+        return Attachment(url=spec['url'], **kw)
+    if k == 'obj-string':
+        return Attachment(string=spec['text'], **kw)
+    if k == 'obj-fileobj':
+        f = open(spec['path'], 'rb')
+        opened.append(f)
+        return Attachment(file_obj=f, **kw)
+    raise ValueError(k)
+
+
+def epoch_case(case):
+    """case: dict(html, css=[str], opts, atts=[spec], epoch=str|None, clocks=[t, ...], api='write'|'render').
+    One render per clock of `clocks`, each with SOURCE_DATE_EPOCH = epoch (None: removed from the environment) and the
+    system clock frozen at that t; the caller's Attachment objects are built anew for every render, under its clock."""
+    import datetime as dt
+    from weasyprint import HTML, CSS
+    from weasyprint.text.fonts import FontConfiguration
+    base = _base_url(None)
+    saved = os.environ.get('SOURCE_DATE_EPOCH')
+    runs = []
+    file_times = {}
+    for spec in case.get('atts', []):
+        if spec['kind'] == 'obj-filename':
+            # the times of the file, as Attachment.__init__ converts them (naive local time, written with a Z)
+            import calendar
+            st = [dt.datetime.fromtimestamp(f(spec['path'])) for f in (os.path.getctime, os.path.getmtime)]
+            file_times[spec['path']] = [calendar.timegm(x.timetuple()) for x in st]
+    try:
+        for t in case['clocks']:
+            if case['epoch'] is None:
+                os.environ.pop('SOURCE_DATE_EPOCH', None)
+            else:
+                os.environ['SOURCE_DATE_EPOCH'] = case['epoch']
+            obs = {'clock': t}
+            opened = []
+            try:
+                with _FakeClock(t) as clock:
+                    try:
+                        options = dict(case.get('opts', {}))
+                        media = options.pop('media_type', 'print')
+                        if 'pdf_identifier' in options:
+                            options['pdf_identifier'] = options['pdf_identifier'].encode()
+                        fc = FontConfiguration() if any('@font-face' in c for c in case.get('css', [])) else None
+                        sheets = [CSS(string=c, base_url=base, font_config=fc) for c in case.get('css', [])]
+                        if sheets:
+                            options['stylesheets'] = sheets
+                        if case.get('atts'):
+                            options['attachments'] = [_build_attachment(s, opened) for s in case['atts']]
+                        html = HTML(string=case['html'], base_url=base, media_type=media)
+                        if case.get('api') == 'render':
+                            pdf = html.render(font_config=fc, **options).write_pdf(**options)
+                        else:
+                            pdf = html.write_pdf(font_config=fc, **options)
+                    finally:
+                        obs['clock_readers'] = sorted(set(clock.readers))
+                obs['pdf'] = hashlib.sha256(pdf).hexdigest()[:24]
+                obs['len'] = len(pdf)
+                obs['dates'] = pdf_dates(pdf)
+                if case.get('keep_dir'):
+                    os.makedirs(case['keep_dir'], exist_ok=True)
+                    name = os.path.join(case['keep_dir'], 'epoch-%s-clock-%s.pdf' % (case['epoch'], t))
+                    open(name, 'wb').write(pdf)
+                    obs['kept'] = name
+            except Exception as exc:
+                obs['exc'] = _exc_info(exc)
+            finally:
+                for f in opened:
+                    f.close()
+            runs.append(obs)
+    finally:
+        if saved is None:
+            os.environ.pop('SOURCE_DATE_EPOCH', None)
+        else:
+            os.environ['SOURCE_DATE_EPOCH'] = saved
+    import time as tm
+    return {'runs': runs, 'file_times': file_times, 'font_file_dates': font_file_dates(),
+            'clock_restored': type(tm.time).__name__ == 'builtin_function_or_method' and dt.datetime.__name__ == 'datetime',
+            'hashseed': os.environ.get('PYTHONHASHSEED')}
+
+
 def run_job(job):
     """Everything one job asks for, in this process: direct calls, histories, reuse histories (module state watched)."""
     import time
